@@ -4,13 +4,14 @@
   the minimal instance of `Renders`).
 -/
 import SoyVerif.Lemmas.ParserLit
+import SoyVerif.Lemmas.ParserQuote
 
 set_option linter.unusedSimpArgs false
 set_option linter.unusedVariables false
 
 namespace SoyVerif.Lemmas.ParserToks
 open SoyVerif SoyVerif.Model SoyVerif.Model.Parser SoyVerif.Model.PrintTokens SoyVerif.Model.Printer
-open SoyVerif.Lemmas.ParserLit
+open SoyVerif.Lemmas.ParserLit SoyVerif.Lemmas.ParserQuote
 
 /-! ### spelling -/
 
@@ -168,8 +169,8 @@ mutual
           obtain ⟨hc, hs⟩ := h
           rw [CanonM] at hc
           rw [Renders]
-          refine ⟨quoteString k, toks ff e, unsp (piecesMap ff r false), hc.1, slot_plain ff pf e (renders_toks e hc.2.1),
-            renders_entries r hc.2.2, hs, ?_⟩
+          refine ⟨quoteString k, toks ff e, unsp (piecesMap ff r false), requote k, slot_plain ff pf e (renders_toks e hc.1),
+            renders_entries r hc.2, hs, ?_⟩
           simp [toks, pieces, piecesMap, unsp, unsp_append]
     | .dataRef _ k acc, h => by
         rw [Canon] at h
@@ -227,7 +228,7 @@ mutual
     | .cons k e r, h => by
         rw [CanonM] at h
         rw [RendersEntries]
-        refine ⟨quoteString k, toks ff e, _, h.1, slot_plain ff pf e (renders_toks e h.2.1), renders_entries r h.2.2, ?_⟩
+        refine ⟨quoteString k, toks ff e, _, requote k, slot_plain ff pf e (renders_toks e h.1), renders_entries r h.2, ?_⟩
         simp [toks, piecesMap, unsp, unsp_append]
   theorem renders_accs : (l : AccessList) → CanonAL ff pf l → RendersAccs pf l (unsp (piecesAccs ff l))
     | .nil, _ => by simp [piecesAccs, unsp, RendersAccs]
